@@ -237,6 +237,16 @@ def ctrl_job(args):
                 msg = run_stream(wire, cuts, expected)
                 if msg and len(viol) < 3:
                     viol.append((("ctrl", ctrl), cuts, wire.hex(), msg))
+    # RSTACK and ERROR with each of the 256 reset / error codes (most of them have no name in bellows' enumeration): the
+    # notification passed up carries the code that was on the wire
+    for ctrl in (0xC1, 0xC2):
+        for code in range(256):
+            wire = ref_ash.wire(ref_ash.with_crc(bytes([ctrl, 0x02, code])))
+            for cuts in ((), tuple(range(1, len(wire)))):
+                feeds += 1
+                msg = run_stream(wire, cuts, expected)
+                if msg and len(viol) < 3:
+                    viol.append((("code", ctrl, code), cuts, wire.hex(), msg))
     return 0, feeds, viol, set()
 
 
@@ -542,8 +552,8 @@ def main(tier: str) -> int:
         "distinct_nontrivial": len(nontrivial),
         "rule": f"all streams of <= {depth} tokens over a 32-token alphabet (6 reserved bytes, 4 escape complements, 1 ordinary byte, 10 frame bodies incl. bad CRC / bad escape / doubled escape without flag, 11 flag-terminated frames) "
                 "x chunkings (all 2^(n-1) for n <= 12 bytes, else whole + bytewise + every single cut; thorough adds every pair of cuts); all 2-byte streams from each of the 8 expected-number states and 3-byte streams over 30 interesting values, all chunkings; "
-                "large reads; memory matrix; local commutation step; non-trivial = distinct shape of the reference's event list (kinds of deliveries/ACK/NAK in order)",
-        "token_streams": streams, "feeds": feeds, "valid_crc_control_byte_frames": 2 * 256 * 4 * 2, "large_read_cases": lf, "memory_reads": mf,
+                "RSTACK / ERROR with each of the 256 codes; large reads; memory matrix; local commutation step; non-trivial = distinct shape of the reference's event list (kinds of deliveries/ACK/NAK in order)",
+        "token_streams": streams, "feeds": feeds, "valid_crc_control_byte_frames": 2 * 256 * 4 * 2, "reset_code_frames": 2 * 2 * 256 * 2, "large_read_cases": lf, "memory_reads": mf,
         "commutation_cases": cf, "commutation_states": cstates,
         "exhaustive": True,
         "samples": [{"stream": ["DATA0", "FLAG", "DATA1", "FLAG"], "bytes": (TOK["DATA0"] + b"\x7e" + TOK["DATA1"] + b"\x7e").hex()},
